@@ -35,7 +35,7 @@ def dispatchF (n : Nat) (rec : St → Sx → Res) (st : St) (o : Op) (args : Lis
     | _, _ => dispatch n rec st o args
   else
     match o with
-    | .QUOTE | .QUASIQUOTE | .AND | .OR | .CASE => dispatch n rec st o args
+    | .QUOTE | .QUASIQUOTE | .AND | .OR | .CASE | .GROUPS => dispatch n rec st o args
     | _ => if fixedArgs args then dispatch n rec st o args
            else .error (.unsupported "stored or syntactic operands that the pass rewrites")
 
@@ -93,7 +93,7 @@ theorem evalF_sub : ∀ (n : Nat) (st : St) (e : Sx) (r : Sx × St), evalF n st 
 /-! ## shape of `optimize` on operator forms -/
 
 def rewritten : Op → Bool
-  | .IF | .DO | .ADD | .MUL | .AND | .OR | .CASE | .QUOTE | .QUASIQUOTE => true
+  | .IF | .DO | .ADD | .MUL | .AND | .OR | .CASE | .QUOTE | .QUASIQUOTE | .GROUPS => true
   | _ => false
 
 theorem optimize_plain (o : Op) (ho : rewritten o = false) (w : Bool) (args : List Sx) :
@@ -133,6 +133,7 @@ theorem fixed_case (n : Nat) (st : St) (w : Bool) (o : Op) (args : List Sx) (r :
     unfold dispatchF at h
     simp only [hg, Bool.false_eq_true, if_false] at h
     split at h
+    · simp [rewritten] at hr
     · simp [rewritten] at hr
     · simp [rewritten] at hr
     · simp [rewritten] at hr
